@@ -1058,6 +1058,10 @@ func (g *Gen) doTypeAssert(st *State, x *ssa.TypeAssert) *Val {
 		switch kindOf(at) {
 		case KPtr, KInt, KOpaque:
 			res = &Val{K: kindOf(at), T: at, S: "(ifptr " + v.S + ")"}
+			if kindOf(at) == KPtr {
+				// a node value of dynamic type at: its BaseNode is the one embedded in the object it points to
+				g.nodeBaseFactIf(okT, at, res.S, v.S)
+			}
 		case KSlice:
 			res = unboxSlice(v.S, at)
 			g.typeFacts(st, res, okT)
@@ -1183,6 +1187,11 @@ func (g *Gen) mkifSym(ct types.Type) string {
 // nodeBaseFact: when the contracts define the node model function base(v), an interface value made
 // from a pointer to a struct that embeds ast.BaseNode has base(v) = address of that embedded BaseNode.
 func (g *Gen) nodeBaseFact(ct types.Type, ptr, iface string) {
+	g.nodeBaseFactIf("true", ct, ptr, iface)
+}
+
+// nodeBaseFactIf: the same fact under a condition (after a type assertion: only when the dynamic type is ct)
+func (g *Gen) nodeBaseFactIf(cond string, ct types.Type, ptr, iface string) {
 	sf := g.P.specFuns["base"]
 	if sf == nil || kindOf(ct) != KPtr {
 		return
@@ -1201,7 +1210,7 @@ func (g *Gen) nodeBaseFact(ct types.Type, ptr, iface string) {
 		return
 	}
 	g.declared[key] = true
-	g.assume("true", implies(not(eq(ptr, "0")), eq("("+sym("sf|base")+" "+iface+")", addr)))
+	g.assume("true", implies(and(cond, not(eq(ptr, "0"))), eq("("+sym("sf|base")+" "+iface+")", addr)))
 }
 
 func (g *Gen) embeddedBaseNode(t types.Type, addr string, depth int) (string, bool) {
